@@ -122,14 +122,28 @@ def _c03_case(draw: Any, max_ops: int) -> dict[str, Any]:
     n = draw(st.sampled_from([1, 2, 3, 4, 5, 6, 6, 7, 8]))
     actors = [[draw(st.integers(0, 9)), f"s{i}"] for i in range(n)]
     ops: list[list[Any]] = []
+    # a third of the histories address several component groups on the same instance (6th element of a propose op)
+    multi = draw(st.integers(0, 2)) == 0
     for _ in range(draw(st.integers(1, max_ops))):
         kind = draw(st.sampled_from(["p", "p", "p", "p", "p", "p", "a", "b"]))
         if kind == "p":
-            ops.append(["propose", draw(st.integers(0, n - 1))] + draw(_proposal_values()))
+            ops.append(["propose", draw(st.integers(0, n - 1))] + draw(_proposal_values())
+                       + ([draw(st.sampled_from([0, 0, 1, 2]))] if multi else []))
         elif kind == "a":
             ops.append(["advance", draw(st.sampled_from([1.0, 20.0, 30.0, 59.0, 60.0, 61.0, 100.0]))])
         else:
             ops.append(["bounds", draw(_sysbounds())])
+    if multi and n >= 3 and draw(st.booleans()):
+        # scripted opening for several groups: proposals of different age in two groups, so that later sweeps expire
+        # them one by one (staggered expiry across groups is rare in uniformly drawn histories)
+        ga, gb = draw(st.sampled_from([(0, 1), (1, 0), (0, 2), (2, 0)]))
+        step = st.sampled_from([10.0, 20.0, 30.0, 40.0])
+        a0, a1, a2 = draw(st.permutations(list(range(n))))[:3]
+        opening = [["propose", a0] + draw(_proposal_values()) + [ga], ["advance", draw(step)],
+                   ["propose", a1] + draw(_proposal_values()) + [ga], ["advance", draw(step)],
+                   ["propose", a2] + draw(_proposal_values()) + [gb], ["advance", draw(step)], ["advance", draw(step)],
+                   ["advance", draw(step)]]
+        ops = opening + ops
     return {"kind": "C03", "sys": draw(_sysbounds()), "actors": actors, "ops": ops,
             "perm_seed": draw(st.integers(0, 10**6))}
 
@@ -204,13 +218,17 @@ def _sb(s: dict[str, float]) -> SystemBounds:
     )
 
 
+GROUPS = [COMP, frozenset({2}), frozenset({3, 4})]
+"""Component groups one Matryoshka instance may serve at once (histories address them by index)."""
+
+
 def _proposal(prio: int, source: str, pref: float | None, bl: float | None, bu: float | None,
-              created: float = 0.0) -> Proposal:
+              created: float = 0.0, comp: frozenset[int] = COMP) -> Proposal:
     return Proposal(
         source_id=source,
         preferred_power=None if pref is None else W(pref),
         bounds=Bounds(None if bl is None else W(bl), None if bu is None else W(bu)),
-        component_ids=COMP,
+        component_ids=comp,
         priority=prio,
         creation_time=created,
         set_operating_point=False,
@@ -242,48 +260,20 @@ def _run_c03(case: dict[str, Any]) -> Verdict:
     actors = case["actors"]
     hist = Matryoshka(timedelta(seconds=MAX_AGE))
     now = 0.0
-    # model: actor index -> (values, created, state) ; state in {"live", "maybe"}
-    live: dict[int, dict[str, Any]] = {}
+    # model per component group: actor index -> (values, created, state) ; state in {"live", "maybe"}
+    lives: dict[int, dict[int, dict[str, Any]]] = {0: {}}
     replaced = expired = False
     hist.calculate_target_power(COMP, None, _sb(sysb), must_return_power=True)
-    for step, op in enumerate(case["ops"]):
-        where = f"step {step} {op[0]}"
-        try:
-            if op[0] == "propose":
-                _, ai, pref, bl, bu = op
-                prio, src = actors[ai]
-                if ai in live:
-                    replaced = True
-                live[ai] = {"vals": (pref, bl, bu), "created": now, "maybe": False}
-                t = hist.calculate_target_power(COMP, _proposal(prio, src, pref, bl, bu, now), _sb(sysb),
-                                                must_return_power=True)
-            elif op[0] == "advance":
-                now += op[1]
-                hist.drop_old_proposals(now)
-                for ai in list(live):
-                    age = now - live[ai]["created"]
-                    if age > MAX_AGE:
-                        del live[ai]
-                        expired = True
-                    elif age == MAX_AGE:
-                        live[ai]["maybe"] = True
-                t = hist.calculate_target_power(COMP, None, _sb(sysb), must_return_power=True)
-            else:
-                sysb = dict(op[1])
-                v.labels.add("bounds_change")
-                t = hist.calculate_target_power(COMP, None, _sb(sysb), must_return_power=True)
-        except Exception as exc:  # pylint: disable=broad-except
-            v.fail(f"{where}: raised {type(exc).__name__}: {exc}")
-            return v
+
+    def check_group(g: int, t: Any, where: str, proposed_before: bool) -> None:
+        live = lives[g]
         if t is None:
-            if live or step > 0:
-                # no bucket yet (no proposal ever): nothing to check
-                if any(o[0] == "propose" for o in case["ops"][: step + 1]):
-                    v.fail(f"{where}: must_return_power=True returned None")
-            continue
+            if proposed_before:
+                v.fail(f"{where}: must_return_power=True returned None")
+            return
         tw = t.as_watts()
         _envelope(v, tw, sysb, where)
-        stored = hist.get_target_power(COMP)
+        stored = hist.get_target_power(GROUPS[g])
         if stored is None or stored.as_watts() != tw:
             v.fail(f"{where}: get_target_power {stored} != returned target {tw}")
         # history-freedom against a fresh instance (canonical order), for each reading of "maybe"
@@ -295,8 +285,51 @@ def _run_c03(case: dict[str, Any]) -> Verdict:
             accepted.add(_target_of(_sb(sysb), props) if props else 0.0)
         if tw not in accepted:
             v.fail(f"{where}: target {tw} after the history differs from {sorted(accepted)} computed from the live proposals alone")
+
+    seen_groups: list[int] = []
+    for step, op in enumerate(case["ops"]):
+        where = f"step {step} {op[0]}"
+        try:
+            if op[0] == "propose":
+                _, ai, pref, bl, bu = op[:5]
+                g = op[5] if len(op) > 5 else 0
+                prio, src = actors[ai]
+                live = lives.setdefault(g, {})
+                if g not in seen_groups:
+                    seen_groups.append(g)
+                if len(seen_groups) > 1:
+                    v.labels.add("several_component_groups_on_one_instance")
+                if ai in live:
+                    replaced = True
+                live[ai] = {"vals": (pref, bl, bu), "created": now, "maybe": False}
+                t = hist.calculate_target_power(GROUPS[g], _proposal(prio, src, pref, bl, bu, now, GROUPS[g]), _sb(sysb),
+                                                must_return_power=True)
+                check_group(g, t, where + (f" (group {g})" if g else ""), True)
+            else:
+                if op[0] == "advance":
+                    now += op[1]
+                    hist.drop_old_proposals(now)
+                    for live in lives.values():
+                        for ai in list(live):
+                            age = now - live[ai]["created"]
+                            if age > MAX_AGE:
+                                del live[ai]
+                                expired = True
+                            elif age == MAX_AGE:
+                                live[ai]["maybe"] = True
+                else:
+                    sysb = dict(op[1])
+                    v.labels.add("bounds_change")
+                # every group this instance has served is recomputed and judged (group 0 also before its first proposal)
+                for g in ([0] if 0 not in seen_groups else []) + seen_groups:
+                    t = hist.calculate_target_power(GROUPS[g], None, _sb(sysb), must_return_power=True)
+                    check_group(g, t, where + (f" (group {g})" if g else ""), g in seen_groups)
+        except Exception as exc:  # pylint: disable=broad-except
+            v.fail(f"{where}: raised {type(exc).__name__}: {exc}")
+            return v
         if v.violations:
             return v
+    live = lives[0]
 
     # all arrival orders of the definitely-live set
     sure = [ai for ai in sorted(live) if not live[ai]["maybe"]]
